@@ -19,5 +19,11 @@ open ExtractedCode
 
 theorem C11_extracted_read_paths_write_nothing : readPathWrites = [] ∧ errors = [] := by decide
 
+/-- … nor does a getter, `ProtoReflect`, a size or a marshal closure hand the address of message memory to a
+    helper that could write through it, and the runtime package those closures call into keeps no package-level
+    state (a shared table or pool written by concurrent readers). -/
+theorem C11_extracted_read_paths_share_no_state : readPathEscapes = [] ∧ runtimeState = [] := by decide
+
 #print axioms C11_extracted_read_paths_write_nothing
+#print axioms C11_extracted_read_paths_share_no_state
 end Pulsar
